@@ -6,7 +6,7 @@ from ..core import product
 
 RATES = ['0', '0.001', '0.0025', '0.5', '1']
 OPEN_INSTANTS = [2, 3, 4, 9]
-INIT = (('acct_sub', '500000'), ('create', '1'), ('pf_sub', '1', '200000'))
+INIT = (('acct_sub', '5000000000'), ('create', '1'), ('pf_sub', '1', '200000'))
 
 
 def fees(tier):
@@ -31,7 +31,7 @@ def items(tier):
         for asset in ('A', 'B'):
             for q in qtys(tier):
                 for j in OPEN_INSTANTS:
-                    for table in (0, 1, 2, 3):
+                    for table in (0, 1, 2, 3, 5):
                         out.append({'fee': list(fee), 'history': [list(e) for e in INIT] + [
                             ['quotes', table], ['submit', '1', asset, q], ['tick', j]]})
     # two-order batches: buy and sell of the same size in one update (incl. the symmetric table)
